@@ -1,6 +1,7 @@
 """Rules for hand-rank naming/order, parsing, bit-sets, two-card conversion and the Chen score:
 C06, C07, C12, C15, C16, C17."""
 from itertools import combinations
+import os, sys
 from .base import *
 from .cards import premise_layout, PC, BC, RANK_ENUM, SUIT_ENUM, accessor_dag, arr_of, describe_slots
 from ..evals import cell_table, cell_table_cmp, cell_constants, cell_representatives, rep_of, CellsRefused, BitVec, b_deps, children, substitute, b_or, b_and, b_not
@@ -248,7 +249,10 @@ def check_C07(ctx):
                     sm_o = ctx.summ(im_["items"][nm_], [(kind_ if nm_ in ("max", "min", "clamp") else "r", ra), (kind_ if nm_ in ("max", "min", "clamp") else "r", rb)])
                 except Uncertified:
                     continue
-                roots.append(sm_o.ret)
+                # (max / min hand back one of the two ranks whole: the rank itself is payload there, only what
+                # the choice looks at cuts cells)
+                pay_ = {id(ra): atom("$A", "u16"), id(rb): atom("$B", "u16")}
+                roots.append(substitute(sm_o.ret, lambda nd: pay_.get(id(nd))) if nm_ in ("max", "min", "clamp") else sm_o.ret)
                 roots.extend(c for o in sm_o.obligations if not (o.cond[0] == "c" and o.cond[1]) for c in (o.cond,) + tuple(o.pc))
         for root in roots:
             for x in walk(root, seen_):
@@ -276,11 +280,21 @@ def check_C07(ctx):
         for lo, hi in cells:
             reps |= {lo, hi, (lo + hi) // 2}
         reps = sorted(reps)
+        if len(reps) > 450:
+            # (e.g. max/min overrides that hand back whole ranks drag the ~300 class boundaries of the conversion in)
+            raise Uncertified("the comparison and its overrides compare the values with %d different constants: %d representatives, too many pairs to tabulate" % (len(consts), len(reps)), pdb.where(kcmp))
         sign = {"Less": -1, "Equal": 0, "Greater": 1}
-        table = {}
-        for x in reps:
-            for y in reps:
-                table[(x, y)] = sign[enum_name(pdb, ctx.fold(dag, {"a": x, "b": y}))]
+
+        def fold_pairs(node):
+            """node folded on every pair of representatives: the left rank is substituted first (everything that depends
+            on it alone folds once per value), the right rank is then folded on the residual"""
+            out = {}
+            for x in reps:
+                nx = substitute(node, lambda nd, x=x: C(x, "u16") if nd is a else None)
+                for y in reps:
+                    out[(x, y)] = ctx.fold(nx, {"a": x, "b": y})
+            return out
+        table = {k_: sign[enum_name(pdb, v_)] for k_, v_ in fold_pairs(dag).items()}
         valid = lambda x: 1 <= x <= 7462
         bad_spec = bad_anti = bad_eq = 0
         ex_spec = ex_eq = None
@@ -306,14 +320,22 @@ def check_C07(ctx):
         rep.ob("C07.cmp-equality", "all pairs", bad_eq == 0, "cmp(from(%s), from(%s)) is Equal exactly when the ranks differ / is not Equal when they are equal (derived == compares the value)" % (ex_eq or (0, 0)), pdb.where(kcmp))
         # transitivity over all representative triples (three representatives per cell realise every order pattern)
         bad_tr = 0
-        le = {k: s_ <= 0 for k, s_ in table.items()}
+        # (bit sets: up[x] = the z with x <= z; transitivity is up[y] within up[x] for every y in up[x])
+        ix_ = {v_: i_ for i_, v_ in enumerate(reps)}
+        up = {}
         for x in reps:
+            m_ = 0
+            for z in reps:
+                if table[(x, z)] <= 0:
+                    m_ |= 1 << ix_[z]
+            up[x] = m_
+        for x in reps:
+            ux = up[x]
             for y in reps:
-                if not le[(x, y)]:
-                    continue
-                for z in reps:
-                    if le[(y, z)] and not le[(x, z)]:
-                        bad_tr += 1
+                if (ux >> ix_[y]) & 1:
+                    extra_ = up[y] & ~ux
+                    if extra_:
+                        bad_tr += bin(extra_).count("1")
         rep.evals(len(reps) ** 3)
         rep.ob("C07.cmp-transitive", "all triples", bad_tr == 0, "%d representative triples violate transitivity" % bad_tr, pdb.where(kcmp))
         if nonorder and not (bad_spec or bad_anti or bad_eq or bad_tr):
@@ -332,8 +354,9 @@ def check_C07(ctx):
                 continue
             od = ctx.summ(po["items"][nm], [("r", ra), ("r", rb)]).ret
             badop = None
+            odv = fold_pairs(od)
             for (x, y), c_ in table.items():
-                if bool(cval(ctx.fold(od, {"a": x, "b": y}))) != opspec[nm](c_):
+                if bool(cval(odv[(x, y)])) != opspec[nm](c_):
                     badop = badop or (x, y)
             rep.ob("C07.operators", nm, badop is None, "the overridden operator `%s` disagrees with cmp for from(%s) vs from(%s)" % ((nm,) + (badop or (0, 0))), pdb.where(po["items"][nm]))
         for nm in extra_ord:
@@ -342,8 +365,9 @@ def check_C07(ctx):
                 continue
             od = ctx.summ(ord_im["items"][nm], [("v", ra), ("v", rb)]).ret
             badop = None
+            odv = fold_pairs(od)
             for (x, y), c_ in table.items():
-                r_ = ctx.fold(od, {"a": x, "b": y})
+                r_ = odv[(x, y)]
                 gotv = cval(r_[2][0]) if r_[0] == "agg" else None
                 want = (y if c_ <= 0 else x) if nm == "max" else (x if c_ <= 0 else y)
                 if gotv != want:
@@ -359,13 +383,15 @@ def check_C07(ctx):
         elif im2 is not None and "eq" in im2["items"]:
             ed = ctx.summ(im2["items"]["eq"], [("r", ra), ("r", rb)]).ret
             badeq = None
+            edv = fold_pairs(ed)
             for (x, y) in table:
-                if bool(cval(ctx.fold(ed, {"a": x, "b": y}))) != (x == y):
+                if bool(cval(edv[(x, y)])) != (x == y):
                     badeq = badeq or (x, y)
             if "ne" in im2["items"]:
                 nd_ = ctx.summ(im2["items"]["ne"], [("r", ra), ("r", rb)]).ret
+                ndv = fold_pairs(nd_)
                 for (x, y) in table:
-                    if bool(cval(ctx.fold(nd_, {"a": x, "b": y}))) != (x != y):
+                    if bool(cval(ndv[(x, y)])) != (x != y):
                         badeq = badeq or (x, y)
             rep.ob("C07.equality", "hand-written PartialEq", badeq is None, "==/!= on converted ranks is not (in)equality of their values, e.g. from(%s) vs from(%s)" % (badeq or (0, 0)), pdb.where(im2["items"]["eq"]))
         else:
@@ -1371,6 +1397,9 @@ def check_C16(ctx):
                 continue
             exp = "NotEnoughCards" if nv < 2 else "TooManyCards"
             dn_ = substitute(d2, lambda nd: C(nv, "u32") if nd is nn else None)
+            if nv in (0, 64) and "s" in atoms_of(dn_):
+                # only one set has this many members
+                dn_ = substitute(dn_, lambda nd: C(0 if nv == 0 else (1 << 64) - 1, "u64") if nd is s else None)
             if "s" in atoms_of(dn_):
                 # still depends on the set: look for a set of that size on which it differs
                 import random
